@@ -484,7 +484,16 @@ def named(name, fcn):
     commutes with histogrammar.util.cached and histogrammar.util.serializable (they can be applied in any order).
     """
     if isinstance(fcn, UserFcn) and fcn.name is not None:
-        raise ValueError(f"two names applied to the same function: {fcn.name} and {name}")
+        # a name the wrapper derived by itself (the expression string or the def's __name__) is not a
+        # name applied by the user: naming such a wrapper must work in any order with cached/serializable
+        if isinstance(fcn.expr, basestring):
+            automatic = fcn.expr
+        elif isinstance(fcn.expr, types.FunctionType) and fcn.expr.__name__ != "<lambda>":
+            automatic = fcn.expr.__name__
+        else:
+            automatic = None
+        if fcn.name != automatic:
+            raise ValueError(f"two names applied to the same function: {fcn.name} and {name}")
     if isinstance(fcn, CachedFcn):
         return CachedFcn(fcn.expr, name)
     if isinstance(fcn, UserFcn):
